@@ -57,3 +57,80 @@ def pbm_inv(ctx, prefix, o, nonneg=True, strict_order=True):
     if nonneg:
         ok &= forall(ctx, prefix + '/inv/PSD>=0', 0, bins, lambda i: ge(p.get(i), 0), kind='invariant')
     return ok
+
+
+# ---------------------------------------------------------------------------------------------------
+# BOUNDED stand-in: objects reached from the REAL constructor by a bounded sequence of public operations
+# ---------------------------------------------------------------------------------------------------
+HISTORY = [None]          # when set to a tuple of operation names, pbm_obj builds the object through the real code instead of from the schema
+PBM_OPS = ('createBackup', 'revert', 'changeSizeClasses', 'addSizeClasses', 'reset')
+
+
+def pbm_history(ctx, it, ops, tag=''):
+    """PopulationBalanceModel(cMin, cMax, bins, minBins, maxBins) followed by `ops` (every argument symbolic) and one UpdatePBMEuler with an
+    arbitrary non-negative distribution.  No class-invariant schema is involved: every field -- also one the schema does not know, e.g. a cached value
+    introduced by a later change of kawin -- has the value the real code gave it."""
+    cMin = real(ctx, tag + 'h_cMin', lambda v: v > 0)
+    cMax = real(ctx, tag + 'h_cMax')
+    ctx.assume(cMax > cMin)
+    bins = integer(ctx, tag + 'h_bins', lambda v: v >= 2)
+    minBins = integer(ctx, tag + 'h_minBins', lambda v: v >= 1)
+    maxBins = integer(ctx, tag + 'h_maxBins')
+    ctx.assume(maxBins >= minBins)
+    o = it.get(PBM_MOD, 'PopulationBalanceModel')(cMin, cMax, bins, minBins, maxBins)
+    for k, op in enumerate(ops):
+        if op == 'createBackup':
+            o.createBackup()
+        elif op == 'revert':
+            o.revert()
+        elif op == 'reset':
+            o.reset()
+        elif op == 'addSizeClasses':
+            o.addSizeClasses(integer(ctx, '%sh%d_add' % (tag, k), lambda v: v >= 1))
+        elif op == 'changeSizeClasses':
+            a = real(ctx, '%sh%d_cMin' % (tag, k), lambda v: v > 0)
+            b = real(ctx, '%sh%d_cMax' % (tag, k))
+            ctx.assume(b > a)
+            o.changeSizeClasses(a, b, integer(ctx, '%sh%d_bins' % (tag, k), lambda v: v >= 2), False)
+        else:
+            raise ValueError(op)
+    ctx.prove('history/class-count-positive', ge(o.bins, 1))
+    o.UpdatePBMEuler(real(ctx, tag + 'h_time'), array(ctx, tag + 'h_PSD', (o.bins,), fact=lambda v, i: v >= 0))
+    w = real(ctx, tag + 'h_w')
+    ctx.assume(eq(w * o.bins, o.max - o.min))           # a NAME for the class width of the current grid (bins >= 1 was just proved)
+    return o, w
+
+
+_schema_pbm_obj = pbm_obj
+
+
+def pbm_obj(ctx, it, tag='', **kw):      # noqa: F811
+    if HISTORY[0] is not None:
+        return pbm_history(ctx, it, HISTORY[0], tag)
+    return _schema_pbm_obj(ctx, it, tag=tag, **kw)
+
+
+def with_history(fn):
+    """the same contract function, run on objects built by pbm_history(cfg['ops'])"""
+    def g(ctx, it, cfg):
+        HISTORY[0] = tuple(cfg['ops'])
+        try:
+            return fn(ctx, it, cfg)
+        finally:
+            HISTORY[0] = None
+    g.__doc__ = fn.__doc__
+    return g
+
+
+def history_configs(max_len_quick, max_len_thorough, ops=PBM_OPS):
+    import itertools
+    out = []
+    for n in range(0, max_len_thorough + 1):
+        for seq in itertools.product(ops, repeat=n):
+            if any(seq[i] == 'revert' and 'createBackup' not in seq[:i] for i in range(n)) and n > 1 and False:
+                continue
+            d = dict(name='new' + ''.join('.' + s for s in seq), ops=seq, weight=1 + n)
+            if n > max_len_quick:
+                d['tier'] = 'thorough'
+            out.append(d)
+    return out
